@@ -15,16 +15,16 @@ CLAIMED = {
          "sympy Matrix.jacobian/diff is an oracle (contract validated per instance); gen_layout.py", "5 C03"),
  "C04": ("MathComp theorem for every dimension and real field: the covariance expression regenerated from process_model equals G P G^T + V M V^T and preserves symmetric PSD; stdlib theorems: M is the symmetric diagonal-by-name matrix of the supplied noise. The whole chain (exported blocks, un-flattening, named noise, regenerated formula) is evaluated exactly in Coq against the implementation; purity checked by translator and by before/after comparison.",
          "MathComp proof about regenerated formula + stdlib noise-assembly theorems; exact chained correspondence; exact sympy oracle",
-         "agreement of renderings A (MathComp) and B (lists over Q) of the translator is trusted; numpy operations are oracles; float rounding", "5 C04"),
+         "the executed list rendering is proved to refine the MathComp rendering (Props/C04_refine.v; shape premises evaluated per case); the process-noise loop is translated and proved equal to its closed form; numpy operations are oracles; float rounding", "5 C04"),
  "C05": ("MathComp theorems for every reading dimension: the regenerated sensor_model is x + K(z-h), P - K H P with S = H P H^T + Q, K = P H^T S^-1; recorded (z-h, S) in both branches; fixed point; posterior symmetric PSD and <= prior (P - P' PSD); Q diagonal by name (stdlib). Exact chained correspondence in Coq, exact sympy Kalman oracle by name.",
          "MathComp proofs (unit S via positive-definiteness, PSD identity) about regenerated update; exact chained correspondence; oracle",
-         "renderings A/B agreement trusted; np.linalg.inv oracle; float rounding; conditioning guard cond(S) <= 1e6", "5 C05"),
+         "the executed list rendering is proved to refine the MathComp rendering with the inverse by certificate S X = I (Props/C05_refine.v; premises evaluated per case); np.linalg.inv oracle; float rounding; conditioning guard cond(S) <= 1e6", "5 C05"),
  "C06": ("MathComp theorems over any real closed field: the regenerated Python predicate and C++ helper are true exactly when z^T S^-1 z > k sqrt(2m) + m; disabled settings never discard; same decision; a discard returns the inputs and still records the innovation (both back ends). PrimFloat instance of the regenerated threshold compared bit-for-bit with Python and the compiled helper at and within 3 ulp of the boundary.",
          "MathComp rcfType proofs on regenerated predicates (Python + C++ header + template); PrimFloat boundary correspondence; exact rational oracle",
          "gen_ekf.py (regex/expression parser for the C++ header and template); g++ -ffp-contract=off + Eigen stand-in; NIS value itself exact-arithmetic only", "5 C06"),
  "C09": ("MathComp theorem by induction over arbitrary histories of regenerated predict/update steps (any Jacobians, singular included): symmetric PSD is preserved; the validity gate never refuses a PSD matrix (per real eigenpair, tol <= 0 <= scale). Gate constants regenerated and compared with the implementation on diagonal matrices; long histories on singular-Jacobian models checked on the implementation.",
          "MathComp induction over histories of regenerated steps + gate theorem; implementation histories as search",
-         "rounding inside matmul/eig not modelled: 'up to rounding' is checked on histories, not proved (partial)", "5 C09"),
+         "rounding inside matmul/eig not modelled: 'up to rounding' is decided on histories against a first-order rounding bound whose propagation rule is proved (perturbation identities, Loewner monotonicity, row-sum domination), followed while it stays below 1e-10 of the magnitude (partial); one listed known finding (F12)", "5 C09"),
  "C02": ("Stdlib theorems about the generator's emission layout (Model/CppGen.v): slot consistency and injectivity for any distinct names, entry (i,j) of every Jacobian-like function is the derivative of the i-th row expression w.r.t. the j-th column symbol, every entry assigned exactly once; side conditions on parameters regenerated from ast_fragments.py / cpp.py. Generated text parsed back and compared with the model in Coq; generated code compiled and every function compared by name with exact sympy values.",
          "Coq theorems on a generator model with regenerated parameters; parse-back correspondence in Coq; compile-and-run against exact oracle",
          "sympy diff/subs/ccode, g++, Eigen stand-in (real Eigen absent): values are checked by running, not proved", "5 C02"),
